@@ -13,7 +13,8 @@ Local Open Scope nat_scope.
    wg.Done; closeIf; return }; Conn.dispatch = internal (sync); `go` background; foreground (sync);
    hSet.dispatch = one `go func` per handler + wg.Wait(); h_001 starts with `defer conn.dispatch`
    and CONNECTED has no internal handler; closeIf: cancel, drain loop with `recv done` fed by a
-   goroutine doing conn.wg.Wait(), then conn.dispatch (DISCONNECTED) after the loop; capacity 32. *)
+   goroutine doing conn.wg.Wait(), then conn.dispatch (DISCONNECTED) after the loop (only the order
+   of these five statements is pinned, so unrelated edits of closeIf do not alarm); capacity 32. *)
 Lemma tie_C03 :
   flow_client_Conn_dispatch
     = ["conn.intHandlers.dispatch"; "go conn.bgHandlers.dispatch"; "conn.fgHandlers.dispatch"]%string
@@ -31,11 +32,9 @@ Lemma tie_C03 :
   /\ existsb (String.eqb "CONNECTED") var_client_intHandlers = false
   /\ List.length (filter (String.eqb """001""") var_client_intHandlers) = 1
   /\ existsb (String.eqb """001""") var_client_stHandlers = false
-  /\ flow_client_Conn_closeIf
-     = ["conn.mu.Lock"; "if{"; "conn.mu.Unlock"; "return"; "}"; "set conn.connected"; "conn.sock.Close";
-        "if{"; "conn.die"; "}"; "go func"; "{"; "conn.wg.Wait"; "close"; "}"; "for{"; "select{"; "case";
-        "recv conn.in"; "case"; "recv conn.out"; "case"; "recv done"; "}"; "}"; "conn.mu.Unlock";
-        "conn.dispatch"; "time.Now"; "return"]%string
+  /\ filter (fun x => existsb (String.eqb x) ["conn.die"; "conn.wg.Wait"; "recv conn.in"; "recv done"; "conn.dispatch"]%string)
+            flow_client_Conn_closeIf
+     = ["conn.die"; "conn.wg.Wait"; "recv conn.in"; "recv done"; "conn.dispatch"]%string
   /\ filter (fun p => String.eqb (snd p) "conn.in") chan_sends_client = [("Conn.recv", "conn.in")]%string
   /\ filter (fun p => String.eqb (snd p) "conn.in") chan_recvs_client
      = [("Conn.closeIf", "conn.in"); ("Conn.drainIn", "conn.in"); ("Conn.runLoop", "conn.in")]%string
